@@ -16,7 +16,8 @@ BUDGET = {"quick": 150, "thorough": 2500}
 RULE = (
     "Cases = (supported base model, one rewriting): permute the declaration order of states / choices / functions; "
     "rename every variable by a random injection into the name pool (signatures, bodies, next_ prefixes and "
-    "dependency lists rewritten consistently); add an always-true constraint over random variables; add an "
+    "dependency lists rewritten consistently); rename the constraints, filters and auxiliary functions keeping the "
+    "naming conventions (the suffix decides the role, e.g. a constraint called next_<state>_constraint); add an always-true constraint over random variables; add an "
     "always-true filter over a state and a choice (changes which variables are filter-restricted, hence the layout); "
     "move a boolean table over discrete variables from a constraint to a filter or from a filter to a constraint "
     "(kept only when both models are supported). Both models are solved by lcm; each solution is mapped to the "
@@ -34,6 +35,7 @@ PROFILE = Profile(name="equiv", max_periods=3, p_filter=0.6, p_table_constraint=
                   filter_modes=("keep_all", "keep_all", "drop", "free"), free_constraints=0.0)
 
 REWRITES = ["perm_states", "perm_states", "perm_choices", "perm_functions", "perm_all", "perm_all", "rename", "rename",
+            "rename_functions", "rename_functions",
             "true_constraint", "true_filter", "true_filter", "constraint_to_filter", "constraint_to_filter",
             "filter_to_constraint"]
 
@@ -79,6 +81,29 @@ def rewrite(spec, case):
         if all(k == v for k, v in mapping.items()):
             return None
         return step2, mapping
+    if rw == "rename_functions":
+        # rename constraints, filters and auxiliary functions keeping the naming conventions
+        # (the suffix decides the role: a constraint may be called next_<state>_constraint)
+        fmap, k = {}, 0
+        var_cycle = S + C
+        for n in F:
+            if n == "utility" or (n.startswith("next_") and n[5:] in spec.states):
+                continue
+            suffix = "_constraint" if n.endswith("_constraint") else "_filter" if n.endswith("_filter") else ""
+            p_ = case["pick"][k % 4] + k
+            if suffix:
+                cands = [f"next_{var_cycle[p_ % len(var_cycle)]}{suffix}", f"no_debt_{k}{suffix}",
+                         f"next_period_{k}{suffix}", f"utility_{k}{suffix}"]
+            else:
+                cands = [f"helper_{k}", f"{n}_renamed", f"net_{k}_value"]
+            nn = cands[p_ % len(cands)]
+            if nn in F or nn in fmap.values() or nn in var_cycle:
+                nn = f"fn_{k}{suffix}"
+            fmap[n] = nn
+            k += 1
+        if not fmap:
+            return None
+        return rename(spec, fmap), ident
     new = spec.copy()
     dvars = [v for v in spec.variables if spec.is_disc(v)]
     dstates = [s for s in S if spec.is_disc(s)]
@@ -172,7 +197,7 @@ def check(case):
         (posB[a] - posB[b]) * (i - j) < 0 and sa != sb
         for i, (a, sa) in enumerate(sizesA) for j, (b, sb) in enumerate(sizesA) if i < j
     )
-    out = Outcome(digest=dg, classes=[f"rw_{case['rewrite']}"] + model_classes(spec, ref), nontrivial=changed_class or moved)
+    out = Outcome(digest=dg, classes=[f"rw_{case['rewrite']}"] + model_classes(spec, ref), nontrivial=changed_class or moved or (case["rewrite"] == "rename_functions" and bool(spec.constraints() or spec.filters())))
     if msgs:
         out.status, out.reason, out.bucket = "violation", "; ".join(msgs[:3]), f"equiv:{case['rewrite']}"
         return out
